@@ -275,7 +275,10 @@ pub fn gen_ledger(r: &mut Rng, cfg: &GenCfg) -> Ledger {
             Kind::Buy => {
                 let q = gen_qty(r, cfg.fractional);
                 pos[ti] += q;
-                out.push(GTx::new(date, tk, Kind::Buy, q, gen_price(r), gen_fee(r, cfg.fees)));
+                // a further fill of the same order: same day, same security, same unit price
+                let fill_of = out.iter().rev().find(|t| t.date == date && t.ticker == tk && t.kind == Kind::Buy).map(|t| t.b);
+                let price = match fill_of { Some(p) if r.chance(1, 3) => p, _ => gen_price(r) };
+                out.push(GTx::new(date, tk, Kind::Buy, q, price, gen_fee(r, cfg.fees)));
             }
             Kind::Sell => {
                 let q = if r.below(100) < cfg.oversell_pct {
@@ -322,6 +325,32 @@ pub fn gen_ledger(r: &mut Rng, cfg: &GenCfg) -> Ledger {
             Kind::Dividend => {
                 out.push(GTx::new(date, tk, Kind::Dividend, Decimal::new(r.range(1, 50_000), 2), gen_fee(r, true), Decimal::ZERO));
             }
+        }
+    }
+    // a second security that trades on the same days as the first (same dates, scaled quantities,
+    // one sale made smaller): per-security state that leaks across securities shows up here
+    if nt < TICKERS.len() && r.chance(1, 6) {
+        let src = TICKERS[r.below(nt as u64) as usize];
+        let twin = TICKERS[nt];
+        let k = dec(*r.pick(&["2", "3", "0.5"]));
+        let mut copies: Vec<GTx> = out.iter().filter(|t| t.ticker == src).cloned().collect();
+        let sells: Vec<usize> = copies.iter().enumerate().filter(|(_, t)| t.kind == Kind::Sell).map(|(i, _)| i).collect();
+        let shrink_one = if sells.is_empty() { None } else { Some(*r.pick(&sells)) };
+        for (i, t) in copies.iter_mut().enumerate() {
+            t.ticker = twin.to_string();
+            match t.kind {
+                Kind::Buy | Kind::Sell | Kind::CapReturn | Kind::Accumulation => {
+                    t.a = (t.a * k).normalize();
+                    if Some(i) == shrink_one { t.a = (t.a / Decimal::from(2)).round_dp(4).normalize(); }
+                    if t.a <= Decimal::ZERO { t.a = Decimal::ONE; }
+                }
+                _ => {}
+            }
+        }
+        if r.chance(1, 2) {
+            out.extend(copies);
+        } else {
+            for c in copies { let at = r.below(out.len() as u64 + 1) as usize; out.insert(at, c); }
         }
     }
     // line order: mostly chronological, sometimes shuffled (the matcher sorts)
